@@ -14,7 +14,8 @@ EXPLANATION = (
     "file_data_to_unicode flows File.read -> File.newlines -> write_file(newlines=resource.newlines) -> "
     ".replace('\\n', newlines) (def-use chain, each link checked).  R16.3: on every CFG path to a text write_file "
     "in a content change the same resource was read before (read is what sets the newline convention).  R16.4: "
-    "CRLF is normalised before lone CR wherever both are replaced.  Byte equality itself is a runtime fact and is "
+    "CRLF is normalised before lone CR wherever both are replaced.  R16.5: the chooser applies no str/bytes-asymmetric "
+    "method (splitlines, no-arg split/strip, is*/case methods) to its input.  Byte equality itself is a runtime fact and is "
     "not decided."
 )
 ASSUMPTIONS = ["str.encode() without argument means utf-8 (language definition)",
@@ -85,6 +86,32 @@ def check(ctx, res) -> None:
     # decoder's last-resort fallback must not be used by the encoder first
     # (latin1 fallback in decode is lossless for bytes; nothing to pair)
 
+    # ---- R16.5 the chooser treats str and bytes input alike
+    # (encoder calls it on str, decoder on bytes: a representation-dependent API makes the two sides disagree)
+    ASYM = {"splitlines": "str.splitlines also splits on \\x0b \\x0c \\x1c-\\x1e \\x85 \\u2028 \\u2029, bytes.splitlines only on \\n \\r",
+            "isspace": "str.isspace is Unicode-aware, bytes.isspace is ASCII", "isalnum": "Unicode vs ASCII", "isalpha": "Unicode vs ASCII",
+            "isdigit": "Unicode vs ASCII", "lower": "Unicode vs ASCII case mapping", "upper": "Unicode vs ASCII case mapping",
+            "casefold": "str only", "title": "Unicode vs ASCII", "swapcase": "Unicode vs ASCII"}
+    NOARG_ASYM = {"split", "strip", "lstrip", "rstrip", "rsplit"}  # without an explicit separator: Unicode vs ASCII whitespace
+    choosers = sorted({q for q, _, _ in ce + cd if q in idx.functions})
+    for q in choosers:
+        fn = idx.functions[q]
+        p0 = first_param(fn.node, skip_self=False)
+        # names derived from the parameter before any normalisation to one representation
+        derived = {p0}
+        for n in walk_local(fn.node):
+            if isinstance(n, (ast.For, ast.comprehension)) and any(isinstance(x, ast.Name) and x.id in derived for x in ast.walk(n.iter)):
+                derived |= {x.id for x in ast.walk(n.target) if isinstance(x, ast.Name)}
+        bad = []
+        for c in calls_in(fn.node):
+            if isinstance(c.func, ast.Attribute) and isinstance(c.func.value, ast.Name) and c.func.value.id in derived:
+                if c.func.attr in ASYM or (c.func.attr in NOARG_ASYM and not c.args and not c.keywords):
+                    bad.append(c)
+        res.add("R16.5", q.split(".")[-1], not bad, fn.where,
+                "the chooser uses no representation-dependent str/bytes method on its input" if not bad else
+                f"{q.split('.')[-1]} calls .{bad[0].func.attr}() on its input (line {bad[0].lineno}), which behaves differently for str and bytes "
+                f"({ASYM.get(bad[0].func.attr, 'Unicode vs ASCII whitespace')}): the encoder (str) and the decoder (bytes) can pick different "
+                "encodings for the same file, so a declared non-UTF-8 file is rewritten in another encoding")
     # ---- R16.2 chain
     # (a) decoder returns (text, newline)
     rets = [n for n in walk_local(dnl.node) if isinstance(n, ast.Return)]
